@@ -5,6 +5,7 @@ import (
 	"encoding/binary"
 	"fmt"
 	"math/rand"
+	"os"
 	"strconv"
 	"strings"
 	"sync"
@@ -33,14 +34,29 @@ type Scenario struct {
 	OutBufSize  int
 	OutBufTmo   int
 	Deflate     bool
+	DeflateLvl  int
 	Snappy      bool
+	TLS         bool
 	BodyMax     int
 	SampleRate  int
 }
 
 func (s Scenario) String() string {
-	return fmt.Sprintf("mode=%s seed=%d memq=%d maxbytes=%d msgtmo=%s topics=%v chans=%v cons=%d pubs=%dx%d",
-		s.Mode, s.Seed, s.MemQ, s.MaxBytes, s.MsgTimeout, s.Topics, s.Channels, s.ConsPerChan, s.NPub, s.NMsg)
+	feat := ""
+	if s.TLS {
+		feat += " tls"
+	}
+	if s.Snappy {
+		feat += " snappy"
+	}
+	if s.Deflate {
+		feat += fmt.Sprintf(" deflate%d", s.DeflateLvl)
+	}
+	if s.OutBufSize != 0 || s.OutBufTmo != 0 {
+		feat += fmt.Sprintf(" outbuf=%d/%dms", s.OutBufSize, s.OutBufTmo)
+	}
+	return fmt.Sprintf("mode=%s seed=%d memq=%d maxbytes=%d msgtmo=%s topics=%v chans=%v cons=%d pubs=%dx%d%s",
+		s.Mode, s.Seed, s.MemQ, s.MaxBytes, s.MsgTimeout, s.Topics, s.Channels, s.ConsPerChan, s.NPub, s.NMsg, feat)
 }
 
 func genScenario(mode string, seed int64) Scenario {
@@ -92,7 +108,9 @@ func genScenario(mode string, seed int64) Scenario {
 		s.BodyMax = []int{300, 20000, 70000}[r.Intn(3)]
 		s.NMsg = 4 + r.Intn(5)
 		s.Deflate = r.Intn(3) == 0
+		s.DeflateLvl = 1 + r.Intn(9) // may exceed the daemon's max-deflate-level (6): it is clamped
 		s.Snappy = !s.Deflate && r.Intn(2) == 0
+		s.TLS = r.Intn(3) == 0
 		s.OutBufSize = []int{0, 64, 16384, 65536}[r.Intn(4)]
 		s.MsgTimeout = 5 * time.Second
 		s.MaxMsgTmo = 15 * time.Second
@@ -171,7 +189,10 @@ func (r *Run) makeBody(rng *rand.Rand, p, i int) (string, []byte) {
 	b.WriteString(key)
 	b.WriteByte('|')
 	if r.sc.Mode == "bytes" {
-		kind := rng.Intn(6)
+		kind := rng.Intn(7)
+		if kind == 6 {
+			kind = 0
+		}
 		pad := make([]byte, n)
 		switch kind {
 		case 0:
@@ -195,6 +216,8 @@ func (r *Run) makeBody(rng *rand.Rand, p, i int) (string, []byte) {
 			pad = make([]byte, sizes[rng.Intn(len(sizes))])
 			rng.Read(pad)
 		default:
+			// exactly max-msg-size (128 KiB in these runs), or one byte less
+			pad = make([]byte, 128*1024-len(key)-1-rng.Intn(2))
 			rng.Read(pad)
 		}
 		b.Write(pad)
@@ -217,7 +240,9 @@ func (r *Run) publisher(p int, seed int64, count int, startIdx int) {
 		return
 	}
 	defer cn.close()
-	if _, err := cn.identify(nil); err != nil {
+	pextra := map[string]interface{}{}
+	r.features(pextra)
+	if _, err := cn.identify(pextra); err != nil {
 		r.inconclusive("publisher identify: %v", err)
 		return
 	}
@@ -351,6 +376,20 @@ func (r *Run) markAcked(recs []*pubRec) {
 	hlib.Emit("HPubAck", "keys", keys)
 }
 
+// features adds the scenario's negotiated transport features to an IDENTIFY body
+func (r *Run) features(extra map[string]interface{}) {
+	if r.sc.TLS {
+		extra["tls_v1"] = true
+	}
+	if r.sc.Snappy {
+		extra["snappy"] = true
+	}
+	if r.sc.Deflate {
+		extra["deflate"] = true
+		extra["deflate_level"] = r.sc.DeflateLvl
+	}
+}
+
 // ---- consumers ----------------------------------------------------------
 
 func keyOf(body []byte) string {
@@ -375,6 +414,7 @@ func (r *Run) newConsumer(topic, channel string, person int, rdy int64) (*consum
 	if r.sc.SampleRate != 0 && person == 9 {
 		extra["sample_rate"] = r.sc.SampleRate
 	}
+	r.features(extra)
 	if _, err := cn.identify(extra); err != nil {
 		return nil, err
 	}
@@ -610,7 +650,18 @@ func (r *Run) nodeOpts(o *nsqd.Options) {
 	o.MaxReqTimeout = r.sc.MaxReqTmo
 	o.DeflateEnabled = true
 	o.SnappyEnabled = true
+	if r.sc.TLS {
+		o.TLSCert = repoDir() + "/nsqd/test/certs/server.pem"
+		o.TLSKey = repoDir() + "/nsqd/test/certs/server.key"
+	}
 	o.MaxMsgSize = 128 * 1024
+}
+
+func repoDir() string {
+	if d := os.Getenv("VERIF_REPO"); d != "" {
+		return d
+	}
+	return "/repo"
 }
 
 func trimGen(s string) string {
